@@ -175,6 +175,12 @@ class World:
             if d:
                 self.fail('bystander.changed', 'slot %d: %s' % (i, d))
         self.check_errprofile()
+        # every property's domain is finite values: a table that overflowed
+        # to inf/nan through arithmetic leaves the simulation
+        for s in list(self.pool):
+            if not np.isfinite(s.ref.m).all():
+                self.stats['slot.nonfinite_retired'] += 1
+                self.retire(s)
 
     def check_errprofile(self):
         from biom.err import geterr
